@@ -1695,6 +1695,9 @@ class VectorObject4D(VectorObject, Lorentz, Vector4D):
         temporal: TemporalObject | None = None,
         **kwargs: float,
     ) -> None:
+        if not _is_type_safe(kwargs):
+            raise TypeError("a coordinate must be of the type int or float")
+
         for k, v in kwargs.copy().items():
             kwargs.pop(k)
             generic = _repr_momentum_to_generic.get(k, k)
